@@ -4,6 +4,7 @@ import (
 	"fmt"
 	"strings"
 	"time"
+	"verifsim/gen"
 
 	"verifsim/kernel"
 	"verifsim/parsersim"
@@ -81,8 +82,50 @@ func c18PropBase(race bool) *pProp {
 			}
 			return pParams{grammars: 48, extra: 100}
 		},
+		extraSpecs: func(r *rng) []*genParser {
+			// a grammar that backtracks exponentially and still terminates: one call
+			// on a^15 c^14 needs some hundred thousand expressions for 29 bytes. What
+			// such a call leaves behind in the package (an adaptive default, a
+			// cache) must not show in the calls of other clients.
+			lit := func(s string) *gen.Expr { return &gen.Expr{Kind: gen.Lit, Text: s} }
+			ref := func(s string) *gen.Expr { return &gen.Expr{Kind: gen.Ref, Name: s} }
+			seq := func(xs ...*gen.Expr) *gen.Expr { return &gen.Expr{Kind: gen.Seq, Subs: xs} }
+			g := &gen.Grammar{Rules: []*gen.Rule{
+				{Name: "Start", Expr: &gen.Expr{Kind: gen.Action, Subs: []*gen.Expr{seq(ref("Pp"), &gen.Expr{Kind: gen.Not, Subs: []*gen.Expr{{Kind: gen.Any}}})}}},
+				{Name: "Pp", Expr: &gen.Expr{Kind: gen.Choice, Subs: []*gen.Expr{seq(lit("a"), ref("Pp"), lit("b")), seq(lit("a"), ref("Pp"), lit("c")), lit("a")}}},
+			}}
+			g.Finish()
+			return []*genParser{newGenParser("pbomb", g, nil)}
+		},
 		mkReqs: func(r *rng, gp *genParser, p pParams) []*parsersim.Request {
 			var reqs []*parsersim.Request
+			if gp.Name == "pbomb" {
+				for k := 0; k < 3; k++ {
+					n := 14 + r.intn(2)
+					heavyIn := []byte(strings.Repeat("a", n) + strings.Repeat("c", n-1))
+					small := [][]byte{[]byte("aac"), []byte("aaabc"), []byte("a"), []byte("aaaacbc"), []byte("ab")}
+					var clients [][]parsersim.Call
+					nc := 2 + r.intn(3)
+					for c := 0; c < nc; c++ {
+						var calls []parsersim.Call
+						for j := 1 + r.intn(3); j > 0; j-- {
+							o := parsersim.Opts{Stats: true}
+							plan := drawPlan(r, false)
+							plan.MaxEvents = 300
+							in := small[r.intn(len(small))]
+							if c == 0 && len(calls) == 0 {
+								in = heavyIn
+							}
+							calls = append(calls, parsersim.Call{Input: in, Opts: o, Plan: plan})
+						}
+						clients = append(clients, calls)
+					}
+					sc := simrt.SchedConfig{Strategy: simrt.StratRandom, SwitchOneIn: []int{20, 100, 400, 3000}[r.intn(4)]}
+					reqs = append(reqs, &parsersim.Request{ID: fmt.Sprintf("c18-%s-s%d", gp.Name, k), Kind: "c18", Parser: gp.Name,
+						Clients: clients, Sched: sc, Pool: simsync.PoolConfig{}, Seed: r.u64(), StepCap: 400000000})
+				}
+				return reqs
+			}
 			inputs := drawInputs(r, gp.G, 8, 24)
 			if len(inputs) == 0 {
 				return nil
